@@ -136,7 +136,7 @@ func reposMapDecode(b []byte) (ReposMap, error) {
 		hasSymbols := r.byt() == 1
 		var indexTimeUnix int64
 		if readIndexTime {
-			indexTimeUnix = int64(r.uvarint())
+			indexTimeUnix = int64(r.value())
 		}
 		lb := r.count()
 		for range lb {
@@ -173,6 +173,20 @@ func (b *binaryReader) uvarint() int {
 	}
 	b.b = b.b[n:]
 	return int(x)
+}
+
+// value reads a uvarint that is a plain 64-bit value, not a length or a count:
+// every bit pattern is legal (a negative IndexTimeUnix is written as its two's
+// complement).
+func (b *binaryReader) value() uint64 {
+	x, n := binary.Uvarint(b.b)
+	if n <= 0 {
+		b.b = nil
+		b.err = fmt.Errorf("malformed %s", b.typ)
+		return 0
+	}
+	b.b = b.b[n:]
+	return x
 }
 
 // count reads the number of items that follow. Every item takes at least one
